@@ -1,3 +1,4 @@
+import re
 from typing import List, Any
 
 from pydbml.classes import Index, Expression, Column
@@ -10,7 +11,8 @@ def render_subjects(source_subjects: List[Any]) -> str:
 
     for subj in source_subjects:
         if isinstance(subj, Column):
-            subjects.append(subj.name)
+            # a column name that is not a single word only parses back when quoted
+            subjects.append(subj.name if re.fullmatch(r'\w+', subj.name) else f'"{subj.name}"')
         elif isinstance(subj, Expression):
             subjects.append(DefaultDBMLRenderer.render(subj))
         else:
